@@ -206,36 +206,7 @@ def compose_interrupt_core():
     return cases
 
 
-def _runs_sub_under_wrapper(case):
-    """Trigger of the named deviation invimpl: a behaviour with invariants runs a sub-behaviour under
-    do-for / do-until or inside a try/interrupt statement."""
-    def has_do(stmts):
-        for st in stmts:
-            if st[0] in ("do", "dofor", "dountil", "choose", "shuffle"):
-                return True
-            if st[0] == "if" and (has_do(st[2]) or has_do(st[3])):
-                return True
-            if st[0] == "while" and has_do(st[2]):
-                return True
-            if st[0] == "try" and (has_do(st[1]) or any(has_do(h) for _c, h in st[2])):
-                return True
-        return False
-
-    def wrapped(stmts):
-        for st in stmts:
-            if st[0] in ("dofor", "dountil"):
-                return True
-            if st[0] == "try" and (has_do(st[1]) or any(has_do(h) for _c, h in st[2])):
-                return True
-            if st[0] == "if" and (wrapped(st[2]) or wrapped(st[3])):
-                return True
-            if st[0] == "while" and wrapped(st[2]):
-                return True
-            if st[0] == "try" and (wrapped(st[1]) or any(wrapped(h) for _c, h in st[2])):
-                return True
-        return False
-
-    return any(d["inv"] and wrapped(d["body"]) for d in case["defs"])
+_runs_sub_under_wrapper = dyn.runs_sub_under_wrapper
 
 
 def main(tier):
@@ -266,7 +237,7 @@ def main(tier):
     if tier == "quick":
         ccore = ccore[seed() % 3 :: 3]
     cases = core + nested_flow_core() + invariant_core() + ccore + rand
-    global_rows = c12.run_batch(ck, cases, need_actions=["Setup", "BehaviorResume", "ExecuteActions", "Finish"])
+    global_rows = c12.run_batch(ck, cases, need_actions=["Setup", "BehaviorResume", "ExecuteActions", "Finish"], ideal_invariants=True)
     # as-implemented twins (spec deviation UnwindReturnImpl) for the cases that satisfy its trigger
     trig = [flow_triggers(c) for c in cases]
     twin_ids = [i for i, tr in enumerate(trig) if "return" in tr]
